@@ -17,7 +17,7 @@ from ..core import Failure, Unit
 from . import c01, c06, c20
 
 PROPERTY = "C05"
-RULE = ("Cases = (function, history): for each public function with a `seed` parameter (found by introspection of the bct namespace) a "
+RULE = ("Cases = (function, history) -- plus a mixed-history unit whose histories interleave calls to 22 different seed-accepting routines, so that state leaking from one routine into another is observable: for each public function with a `seed` parameter (found by introspection of the bct namespace) a "
         "history of up to 8 operations drawn from {np.random.seed(s), k draws from the global generator (rand/randint/permutation), seeded "
         "call (int seed), unseeded call} with small generated arguments (n<=8). Oracle = reference model of the global stream: after every "
         "operation np.random.get_state() must equal the model's state bit for bit (a seeded call must leave it untouched; an unseeded call "
@@ -261,19 +261,28 @@ def _state_eq(a, b):
     return a[0] == b[0] and np.array_equal(a[1], b[1]) and a[2:] == b[2:]
 
 
+def _prep(name, args, kwargs):
+    a = [np.array(x) if isinstance(x, (list, np.ndarray)) and name not in ("get_rng",) and np.ndim(x) > 0 else x for x in args]
+    kw = {k: (np.array(v) if isinstance(v, (list, np.ndarray)) and v is not None and np.ndim(v) > 0 else v) for k, v in kwargs.items()}
+    return a, kw
+
+
 def check(case, ctx):
     name = case["fn"]
-    fn = getattr(bct, name)
-    args = [np.array(a) if isinstance(a, (list, np.ndarray)) and name not in ("get_rng",) and np.ndim(a) > 0 else a for a in case["args"]]
-    kwargs = {k: (np.array(v) if isinstance(v, (list, np.ndarray)) and v is not None and np.ndim(v) > 0 else v) for k, v in case["kwargs"].items()}
+    mixed = name == "<mixed>"
     fails = []
     ctx.label("fn:" + name)
+    cur = {}
+    if not mixed:
+        cur["fn"] = getattr(bct, name)
+        cur["args"], cur["kwargs"] = _prep(name, case["args"], case["kwargs"])
+        cur["name"] = name
 
     def run(**extra):
-        a = [_copy(x) for x in args]
-        kw = {k: _copy(v) for k, v in kwargs.items()}
+        a = [_copy(x) for x in cur["args"]]
+        kw = {k: _copy(v) for k, v in cur["kwargs"].items()}
         kw.update(extra)
-        return _norm(ctx.call(fn, *a, timeout=8.0, **kw))
+        return _norm(ctx.call(cur["fn"], *a, timeout=8.0, **kw))
 
     model = np.random.RandomState(0)
     np.random.seed(424242)
@@ -281,6 +290,12 @@ def check(case, ctx):
     drew = False
     for t, op in enumerate(case["ops"]):
         kind = op[0]
+        if mixed and kind in ("seeded", "unseeded"):
+            # histories over several functions: state leaking from one routine into another shows up here
+            call = op[2]
+            cur["name"] = name = call["fn"]
+            cur["fn"] = getattr(bct, name)
+            cur["args"], cur["kwargs"] = _prep(name, call["args"], call["kwargs"])
         if kind == "reseed":
             np.random.seed(int(op[1]))
             model.seed(int(op[1]))
@@ -315,7 +330,7 @@ def check(case, ctx):
                 r4 = run(seed=s + 1)
                 d4, _ = compare.outcomes_equal(r1, r4)
                 if d4 and drew:
-                    ctx.mark_nontrivial({"fn": name, "args": case["args"], "kwargs": case["kwargs"], "seed": s})
+                    ctx.mark_nontrivial({"fn": name, "args": cur["args"], "kwargs": cur["kwargs"], "seed": s})
             else:
                 ctx.notes["seeded-raises:" + name + ":" + str(r1.exc_name())] += 1
         else:
@@ -344,8 +359,35 @@ def check(case, ctx):
     return fails
 
 
+MIXED_POOL = ["randmio_und", "randmio_dir", "latmio_und", "randmio_und_signed", "null_model_und_sign", "makerandCIJ_und", "makerandCIJ_dir",
+              "makeringlatticeCIJ", "makeevenCIJ", "community_louvain", "modularity_louvain_und", "modularity_finetune_und",
+              "modularity_louvain_und_sign", "modularity_probtune_und_sign", "core_periphery_dir", "rentian_scaling", "nbs_bct",
+              "generative_model", "pick_four_unique_nodes_quickly", "get_rng", "randomizer_bin_und", "consensus_und"]
+
+
+@st.composite
+def cases_mixed(draw):
+    nops = draw(st.integers(3, 9))
+    ops = []
+    for _ in range(nops):
+        kind = draw(st.sampled_from(["reseed", "draw", "draw", "seeded", "seeded", "seeded", "unseeded", "unseeded"]))
+        if kind == "reseed":
+            ops.append(["reseed", draw(st.integers(0, 2 ** 32 - 1))])
+        elif kind == "draw":
+            ops.append(["draw", draw(st.sampled_from(["rand", "randint", "permutation"])), draw(st.integers(1, 7))])
+        else:
+            fn = draw(st.sampled_from(MIXED_POOL))
+            a, kw = draw(arg_strategy(fn))
+            call = {"fn": fn, "args": list(a), "kwargs": kw}
+            if kind == "seeded":
+                ops.append(["seeded", draw(gen.seeds()), call])
+            else:
+                ops.append(["unseeded", draw(st.booleans()), call])
+    return {"fn": "<mixed>", "ops": ops}
+
+
 def units(tier):
-    us = []
+    us = [Unit("mixed-history", check, strategy=cases_mixed, examples=(600, 8000), shards=(8, 16))]
     BOUNDS["seed_accepting_functions"] = len(seed_functions())
     BOUNDS["uncovered"] = [n for n in seed_functions() if n not in registered()]
     for name in registered():
